@@ -180,3 +180,263 @@ pub fn search_c06(_rng: &mut Rng, thorough: bool) -> SearchResult {
     r.sample("P row: point -> ID equality; C row: centre and corners within 1e-9 degrees".into());
     r
 }
+
+// ---------------------------------------------------------------- C02
+
+pub fn search_c02(rng: &mut Rng, thorough: bool) -> SearchResult {
+    let mut r = SearchResult::default();
+    let maxres = if thorough { 7 } else { 5 };
+    r.rule = format!("every cell of resolution 0..{} and random cells up to resolution 29: lonlat_to_cell(cell_to_lonlat(c), res c) == c; interior points (convex combinations of the centre with corners / edge points at 1e-2 .. 1e-4 from the boundary, in the planar face frame and in lon/lat) map back to the cell. non-trivial = distinct (cell, point) pairs", maxres);
+    let mut check_cell = |id: u64, r: &mut SearchResult, rng: &mut Rng, interior: bool| {
+        let res = spec_resolution(id);
+        let c = cell_to_lonlat(id).unwrap();
+        r.evaluations += 1;
+        r.nontrivial += 1;
+        match lonlat_to_cell(c, res) {
+            Ok(back) if back == id => {}
+            other => r.viol("centre", format!("lonlat_to_cell(cell_to_lonlat({:x}) = ({}, {}), {}) = {:x?}", id, c.longitude(), c.latitude(), res, other)),
+        }
+        if interior {
+            let b = cell_to_boundary(id, Some(CellToBoundaryOptions { closed_ring: false, segments: Some(2) })).unwrap();
+            for _ in 0..3 {
+                let k = rng.below(b.len() as u64) as usize;
+                let t = 1.0 - 10f64.powi(-(rng.range_i(2, 4) as i32));
+                let mut dl = b[k].longitude() - c.longitude();
+                while dl > 180.0 { dl -= 360.0; }
+                while dl < -180.0 { dl += 360.0; }
+                let p = LonLat::new(c.longitude() + t * dl, c.latitude() + t * (b[k].latitude() - c.latitude()));
+                // only points that the cell's own containment test accepts with a margin are "interior"
+                if outside_distance(id, p.longitude(), p.latitude()) > 0.0 || c.latitude().abs() > 89.0 {
+                    continue;
+                }
+                r.evaluations += 1;
+                r.nontrivial += 1;
+                match lonlat_to_cell(p, res) {
+                    Ok(back) if back == id => {}
+                    Ok(back) => {
+                        // the other cell must not strictly contain the point (edge band)
+                        if outside_distance(back, p.longitude(), p.latitude()) == 0.0 && contains(id, p.longitude(), p.latitude()) > 0.0 {
+                            r.viol("interior", format!("interior point ({}, {}) of {:x} maps to {:x}", p.longitude(), p.latitude(), id, back));
+                        }
+                    }
+                    Err(e) => r.viol("interior", format!("lookup of interior point of {:x} failed: {}", id, e)),
+                }
+            }
+        }
+    };
+    let mut level = vec![0u64];
+    for res in -1..maxres {
+        let mut next = Vec::new();
+        for &c in &level {
+            next.extend(a5::cell_to_children(c, Some(res + 1)).unwrap());
+        }
+        for &c in &next {
+            check_cell(c, &mut r, rng, res + 1 <= 3);
+        }
+        r.dist.insert(format!("all_cells_res_{}", res + 1), next.len() as u64);
+        level = next;
+    }
+    r.exhaustive = true;
+    for _ in 0..(if thorough { 300_000 } else { 40_000 }) {
+        let res = rng.range_i(0, 29) as i32;
+        let id = random_cell(rng, res);
+        check_cell(id, &mut r, rng, true);
+    }
+    r.sample("cell c -> centre -> lookup at res(c) == c; interior points 1e-2..1e-4 from the boundary".into());
+    r
+}
+
+// ---------------------------------------------------------------- C03
+
+pub fn search_c03(rng: &mut Rng, thorough: bool) -> SearchResult {
+    let mut r = SearchResult::default();
+    r.rule = "for every cell of resolution <= 3 against a test set of points (uniform, seams, dodecahedron vertices, poles), and for resolutions up to 29 the candidates gathered from lookups of the point and of 40 perturbed copies: the number of cells that strictly contain the point (containment positive and more than 1e-11 inside) is at most one, and exactly one for points not on a cell edge. non-trivial = distinct (point, resolution) pairs".into();
+    // exhaustive small resolutions
+    let pts: Vec<(f64, f64)> = (0..(if thorough { 3000 } else { 400 })).map(|_| lookup_point(rng)).collect();
+    for res in 0..=(if thorough { 4 } else { 3 }) {
+        let all = a5::uncompact(&[0], res).unwrap();
+        for &(lon, lat) in &pts {
+            let mut strict = Vec::new();
+            let mut near = 0;
+            for &c in &all {
+                let d = contains(c, lon, lat);
+                if d > 0.0 {
+                    strict.push(c);
+                } else if outside_distance(c, lon, lat) < BAND {
+                    near += 1;
+                }
+            }
+            r.evaluations += 1;
+            r.nontrivial += 1;
+            // strictly inside two cells: each must contain it with a margin for a violation
+            if strict.len() > 1 {
+                let deep: Vec<&u64> = strict.iter().filter(|&&c| inside_margin(c, lon, lat) > BAND).collect();
+                if deep.len() > 1 {
+                    r.viol("overlap", format!("point ({}, {}) lies strictly inside {} cells of resolution {}: {:x?}", lon, lat, deep.len(), res, deep));
+                }
+            }
+            if strict.is_empty() && near == 0 {
+                r.viol("gap", format!("point ({}, {}) lies in no cell of resolution {}", lon, lat, res));
+            }
+        }
+    }
+    r.exhaustive = true;
+    for _ in 0..(if thorough { 60_000 } else { 8_000 }) {
+        let res = rng.range_i(2, 29) as i32;
+        let (lon, lat) = lookup_point(rng);
+        let lat = lat.clamp(-90.0, 90.0);
+        let mut cands: Vec<u64> = Vec::new();
+        let step = 40.0 / 2f64.powi(res - 1);
+        for k in 0..41 {
+            let (dx, dy) = if k == 0 { (0.0, 0.0) } else { (step * (k as f64 * 2.399963).cos() * (k as f64 / 40.0), step * (k as f64 * 2.399963).sin() * (k as f64 / 40.0)) };
+            let la = (lat + dy).clamp(-90.0, 90.0);
+            let lo = lon + dx / la.to_radians().cos().abs().max(1e-6);
+            if let Ok(id) = lonlat_to_cell(LonLat::new(lo, la), res) {
+                if !cands.contains(&id) {
+                    cands.push(id);
+                }
+            }
+        }
+        let deep: Vec<u64> = cands.iter().copied().filter(|&c| contains(c, lon, lat) > 0.0 && inside_margin(c, lon, lat) > BAND).collect();
+        let any: usize = cands.iter().filter(|&&c| outside_distance(c, lon, lat) < BAND).count();
+        r.evaluations += 1;
+        r.nontrivial += 1;
+        if deep.len() > 1 {
+            r.viol("overlap", format!("point ({}, {}) lies strictly inside {} cells of resolution {}: {:x?}", lon, lat, deep.len(), res, deep));
+        }
+        if any == 0 {
+            r.viol("gap", format!("no candidate cell of resolution {} contains ({}, {}) (candidates {:x?})", res, lon, lat, &cands[..cands.len().min(6)]));
+        }
+    }
+    r.sample("point vs all 960 cells of resolution 3; point vs two-ring neighbourhood at resolution 21".into());
+    r
+}
+
+/// how far inside the cell's polygon the projected point is (0 when outside): min distance to the edges
+pub fn inside_margin(id: u64, lon: f64, lat: f64) -> f64 {
+    use a5::core::cell::get_pentagon;
+    use a5::core::coordinate_transforms::from_lon_lat;
+    use a5::projections::dodecahedron::DodecahedronProjection;
+    let c = match deserialize(id) {
+        Ok(c) => c,
+        Err(_) => return 0.0,
+    };
+    let d = DodecahedronProjection::get_thread_local();
+    let p = match d.forward(from_lon_lat(LonLat::new(lon, lat)), c.origin_id) {
+        Ok(p) => p,
+        Err(_) => return 0.0,
+    };
+    let shape = match get_pentagon(&c) {
+        Ok(s) => s,
+        Err(_) => return 0.0,
+    };
+    if !(shape.contains_point(p) > 0.0) {
+        return 0.0;
+    }
+    let v = shape.get_vertices_vec();
+    let n = v.len();
+    let mut best = f64::INFINITY;
+    for i in 0..n {
+        let (a, b) = (v[i], v[(i + 1) % n]);
+        let (ex, ey) = (b.x() - a.x(), b.y() - a.y());
+        let (px, py) = (p.x() - a.x(), p.y() - a.y());
+        let l = (ex * ex + ey * ey).sqrt();
+        if l > 0.0 {
+            best = best.min(((ex * py - ey * px) / l).abs());
+        }
+    }
+    best
+}
+
+// ---------------------------------------------------------------- C11
+
+fn ring(id: u64, segments: Option<i32>, closed: bool) -> Vec<LonLat> {
+    cell_to_boundary(id, Some(CellToBoundaryOptions { closed_ring: closed, segments })).unwrap()
+}
+
+pub fn search_c11(rng: &mut Rng, thorough: bool) -> SearchResult {
+    let mut r = SearchResult::default();
+    r.rule = "cells of every resolution (random, on the antimeridian, within 1 degree of and at the poles) x closed/open ring x subdivision n in {1,2,3,8,64,default}: ring length = vertices*n (+1 closed), closing point repeats the first, finite coordinates, latitudes in [-90,90], counter-clockwise orientation and centre inside (signed spherical winding around the centre), longitudes within a 180 degree window unless the cell touches a pole, corner points identical for every n. non-trivial = distinct (cell, n, closed) triples".into();
+    for k in 0..(if thorough { 40_000 } else { 5_000 }) {
+        let res = rng.range_i(0, 29) as i32;
+        let id = match k % 5 {
+            0 => lonlat_to_cell(LonLat::new(if rng.chance(1, 2) { 180.0 } else { -180.0 } + (rng.unit() - 0.5) * 1e-6, 160.0 * rng.unit() - 80.0), res).unwrap(),
+            1 => lonlat_to_cell(LonLat::new(360.0 * rng.unit() - 180.0, (if rng.chance(1, 2) { 1.0 } else { -1.0 }) * (89.0 + rng.unit())), res).unwrap(),
+            2 => lonlat_to_cell(LonLat::new(360.0 * rng.unit() - 180.0, if rng.chance(1, 2) { 90.0 } else { -90.0 }), res).unwrap(),
+            _ => random_cell(rng, res),
+        };
+        let nverts = if res == 1 { 3 } else { 5 };
+        let n_opt = match rng.below(6) { 0 => Some(1), 1 => Some(2), 2 => Some(3), 3 => Some(8), 4 => Some(64), _ => None };
+        let n = n_opt.unwrap_or_else(|| std::cmp::max(1, 2_i32.pow((6 - res).max(0) as u32)));
+        let closed = rng.chance(1, 2);
+        let b = ring(id, n_opt, closed);
+        r.evaluations += 1;
+        r.nontrivial += 1;
+        let want = nverts * n as usize + if closed { 1 } else { 0 };
+        if b.len() != want {
+            r.viol("ring:length", format!("cell_to_boundary({:x}, n={:?}, closed={}) has {} points, expected {}", id, n_opt, closed, b.len(), want));
+            continue;
+        }
+        if closed && (b[0].longitude() != b[b.len() - 1].longitude() || b[0].latitude() != b[b.len() - 1].latitude()) {
+            r.viol("ring:closure", format!("closed ring of {:x} does not repeat its first point", id));
+        }
+        if b.iter().any(|p| !p.longitude().is_finite() || !p.latitude().is_finite() || p.latitude().abs() > 90.0 + 1e-9) {
+            r.viol("ring:range", format!("ring of {:x} has a non-finite coordinate or a latitude outside [-90, 90]", id));
+            continue;
+        }
+        // as returned the ring is the reversed vertex list (closed: preceded by a copy of the first vertex)
+        let open = if closed { &b[1..] } else { &b[..] };
+        let c = cell_to_lonlat(id).unwrap();
+        let cu = unit(c);
+        // winding of the ring around the centre, in the tangent frame at the centre (east, north)
+        let up = if cu[2].abs() < 0.99 { [0.0, 0.0, 1.0] } else { [1.0, 0.0, 0.0] };
+        let e = cross(up, cu);
+        let el = dot(e, e).sqrt();
+        let e = [e[0] / el, e[1] / el, e[2] / el];
+        let nn = cross(cu, e);
+        let mut total = 0.0;
+        for j in 0..open.len() {
+            let a = unit(open[j]);
+            let bb = unit(open[(j + 1) % open.len()]);
+            let (ax, ay) = (dot(a, e) - dot(cu, e), dot(a, nn) - dot(cu, nn));
+            let (bx, by) = (dot(bb, e) - dot(cu, e), dot(bb, nn) - dot(cu, nn));
+            total += (ax * by - ay * bx).atan2(ax * bx + ay * by);
+        }
+        let turns = total / std::f64::consts::TAU;
+        if (turns - 1.0).abs() > 1e-6 {
+            r.viol("ring:orientation", format!("ring of {:x} (res {}) winds {:.6} times counter-clockwise around the reported centre (expected 1)", id, res, turns));
+        }
+        // longitude window
+        let touches_pole = open.iter().any(|p| p.latitude().abs() > 89.99) || c.latitude().abs() > 89.0 && res <= 1;
+        let (mn, mx) = open.iter().fold((f64::INFINITY, f64::NEG_INFINITY), |(a, b2), p| (a.min(p.longitude()), b2.max(p.longitude())));
+        let encloses_pole = (turns - 1.0).abs() < 1e-6 && {
+            // the pole is inside the ring when the ring's longitudes sweep a full turn
+            let mut sweep = 0.0;
+            for j in 0..open.len() {
+                let mut d = open[(j + 1) % open.len()].longitude() - open[j].longitude();
+                while d > 180.0 { d -= 360.0; }
+                while d < -180.0 { d += 360.0; }
+                sweep += d;
+            }
+            sweep.abs() > 180.0
+        };
+        if mx - mn > 180.0 && !touches_pole && !encloses_pole {
+            r.viol("ring:window", format!("ring of {:x} spans longitudes {}..{} (more than 180 degrees) without touching a pole", id, mn, mx));
+        }
+        // corner identity across n
+        if k % 4 == 0 {
+            let b1 = ring(id, Some(1), false);
+            for j in 0..nverts {
+                let p = open[open.len() - 1 - j * n as usize];
+                // compare as physical points
+                let d = angle(unit(p), unit(b1[nverts - 1 - j]));
+                if d > 1e-12 {
+                    r.viol("ring:corners", format!("corner {} of {:x} differs between n={} and n=1 by {:e} rad", j, id, n, d));
+                    break;
+                }
+            }
+        }
+    }
+    r.sample("cell on the antimeridian at resolution 9, n = 8, closed".into());
+    r
+}
